@@ -667,9 +667,15 @@ class Polygon(Shape2D):
         # vertices, otherwise we would need to rotate the q vectors appropriately.
         q_dot_norm = np.dot(q, self.normal)
         q = q - q_dot_norm[:, np.newaxis] * self.normal
+        # An in-plane wave vector counts as zero if it is negligible compared to the
+        # inverse size of the polygon (not in absolute terms).
         q_sqs = np.sum(q * q, axis=-1)
-        zero_q = np.isclose(q_sqs, 0)
-        form_factor[zero_q] = self.area
+        size_sq = np.sum(np.ptp(self._vertices, axis=0) ** 2)
+        zero_q = np.isclose(q_sqs * size_sq, 0)
+        if np.any(zero_q):
+            form_factor[zero_q] = self.area * np.exp(
+                -1j * np.dot(q[zero_q], self.centroid)
+            )
 
         # Add the contribution over all edges of the face.
         verts = self._vertices
